@@ -651,12 +651,21 @@ func (t *Collection) VisitItemsAscendEx(target []byte, withValue bool,
 				string(prevVisitItem.Key), string(i.Key), t, t.name, t.store, t.store.file)
 			return false
 		}
+		// The visit releases each item behind itself, so keep our own
+		// reference on the one we still compare against.
+		if prevVisitItem != nil {
+			t.store.ItemDecRef(t, prevVisitItem)
+		}
+		t.store.ItemAddRef(t, i)
 		prevVisitItem = i
 		return visitor(i, depth)
 	}
 
 	_, err := t.store.visitNodes(t, rnl.root,
 		target, withValue, checkedVisitor, 0, ascendChoice)
+	if prevVisitItem != nil {
+		t.store.ItemDecRef(t, prevVisitItem)
+	}
 	if errCheckedVisitor != nil {
 		return errCheckedVisitor
 	}
